@@ -1108,6 +1108,8 @@ def run_tree_case(c):
     try:
         impl.update({'dlin': int(bool(D.is_linear)), 'ddom': space_dim(D.domain),
                      'dran': space_dim(D.range), 'dfld': int(is_field(D.range)),
+                     # the second derivative call: derivative(x).derivative(d)(d)
+                     'd2val': [core.frac(v) for v in flat(D.derivative(d)(d)).tolist()],
                      'dval': [core.frac(v) for v in flat(Dd).tolist()]})
     except Exception as e:  # noqa
         return line, 'err:deriv-value {}: {}'.format(type(e).__name__, str(e)[:160]), problems, op
@@ -1131,8 +1133,9 @@ def compare_tree(ctx, c, impl, ans):
     f = dict(t.split('=', 1) for t in ans.split()[1:])
     model = {'lin': int(f['lin']), 'dom': int(f['dom']), 'ran': int(f['ran']), 'fld': int(f['fld']),
              'val': core.pfl(f['val']), 'dlin': int(f['dlin']), 'ddom': int(f['ddom']),
-             'dran': int(f['dran']), 'dfld': int(f['dfld']), 'dval': core.pfl(f['dval'])}
-    for key in ('lin', 'dom', 'ran', 'fld', 'val', 'dlin', 'ddom', 'dran', 'dfld', 'dval'):
+             'dran': int(f['dran']), 'dfld': int(f['dfld']), 'dval': core.pfl(f['dval']),
+             'd2val': core.pfl(f['d2val']) if f.get('d2val') != 'err' else 'err'}
+    for key in ('lin', 'dom', 'ran', 'fld', 'val', 'dlin', 'ddom', 'dran', 'dfld', 'dval', 'd2val'):
         if impl[key] != model[key]:
             ctx.disagree(desc, '{}={}'.format(key, [str(v) for v in impl[key]] if isinstance(impl[key], list) else impl[key]),
                          '{}={}'.format(key, [str(v) for v in model[key]] if isinstance(model[key], list) else model[key]))
